@@ -12,8 +12,8 @@ IsEvent(e) == l <= Len(Rec) /\ Rec[l].ev = e /\ l' = l + 1
 
 TraceAsmInit == IsEvent("AsmInit") /\ buf' = Rec[l].buf /\ off' = Rec[l].off /\ last' = [out |-> "init", val |-> <<>>]
 TraceParInit == IsEvent("ParInit") /\ buf' = Rec[l].buf /\ off' = Rec[l].off /\ last' = [out |-> "init", val |-> <<>>]
-(* only representable values are required to be written exactly (the driver    *)
-(* only writes representable ones); the call must succeed iff the field fits    *)
+(* Put events carry representable values: they must be written exactly; the    *)
+(* call must succeed iff the field fits (PutAny below: unrepresentable values)   *)
 TracePut == /\ IsEvent("Put")
             /\ LET r == Rec[l] IN
                /\ r.panic = ""                           \* a panic is never a BitIO step
